@@ -418,6 +418,22 @@ def c07(r):
         if not r.finished:
             out.append(V("C07", "termination", r, last, "run did not terminate"))
         hsteps = {row[0]: row[3] for row in (r.summary or [])}
+        # a season ends on the FIRST day the crop is mature: on the day before the harvest step the crop was not yet
+        # mature (calendar-day crops: days after planting below the maturity length; thermal crops: degree days
+        # accumulated since planting below the maturity threshold) — computed from the daily table, not the flags
+        for k, h in hsteps.items():
+            c = ctx["crops"][k] if 0 <= k < len(ctx["crops"]) else None
+            if c is None or c.get("Maturity") is None or not (0 <= k < len(pl)):
+                continue
+            dap_h = int(h) - pl[k] + 1
+            if int(c.get("CalendarType") or 0) == 1:
+                if dap_h > int(c["Maturity"]):
+                    out.append(V("C07", "past-maturity", r, int(h), "season continued after the first day of maturity",
+                                 season=int(k), dap=dap_h, maturity=int(c["Maturity"])))
+            elif int(h) >= 1 and int(r.growth[int(h) - 1, G_SEASON]) == k and gs_of(r, int(h) - 1):
+                if float(r.growth[int(h) - 1, G_GDDCUM]) >= float(c["Maturity"]) + 1e-9:
+                    out.append(V("C07", "past-maturity", r, int(h), "season continued after the first day of maturity",
+                                 season=int(k), gdd_cum_previous_day=float(r.growth[int(h) - 1, G_GDDCUM]), maturity=float(c["Maturity"])))
         for k, h in hsteps.items():
             if 0 <= k < len(hv) and h + 1 > hv[k]:
                 out.append(V("C07", "harvest-after-latest-date", r, int(h), "harvest recorded after the season's latest harvest date",
